@@ -26,6 +26,7 @@ type writeOpts struct {
 	pieces    int
 	encoding  string // "", "utf8bom", "utf16le", "utf16be" (the latter two with byte order mark)
 	outDev    string // -o names the process's own standard output (/dev/stdout, /dev/fd/1, /proc/self/fd/1)
+	devStdin  bool   // the document is a FILE argument that is a pipe: /dev/stdin
 }
 
 // encodeDoc re-encodes a UTF-8 YAML document.
@@ -63,7 +64,11 @@ func playPiece(c *core.Ctx, p model.Piece, f model.Flags, o writeOpts) (*runner.
 		args = append(args, "-o", outPath)
 	}
 	var stdin []byte
-	if o.viaFile {
+	if o.devStdin {
+		o.viaFile = false
+		args = append(args, "/dev/stdin")
+		stdin = doc
+	} else if o.viaFile {
 		args = append(args, c.Scratch.File("in.yml", doc))
 	} else {
 		stdin = doc
@@ -89,7 +94,7 @@ func randWriteOpts(r *rand.Rand) writeOpts {
 	o := writeOpts{
 		viaFile: r.Intn(4) == 0,
 		outFile: r.Intn(4) == 0,
-		style:   model.YAMLStyle{PlainNumbers: r.Intn(2) == 0, FlowValues: r.Intn(3) == 0, JSON: r.Intn(8) == 0, ZeroPad: r.Intn(5) == 0, Anchors: r.Intn(6) == 0},
+		style:   model.YAMLStyle{PlainNumbers: r.Intn(2) == 0, FlowValues: r.Intn(3) == 0, JSON: r.Intn(8) == 0, ZeroPad: r.Intn(5) == 0, Anchors: r.Intn(6) == 0, RawTabs: r.Intn(3) == 0},
 	}
 	switch r.Intn(12) {
 	case 0:
@@ -100,6 +105,14 @@ func randWriteOpts(r *rand.Rand) writeOpts {
 		o.stdinKind = "socket"
 	case 3:
 		o.pieces = 2 + r.Intn(4)
+	}
+	if r.Intn(10) == 0 {
+		// --debug only adds log lines on stderr
+		o.extra = append(o.extra, "--debug")
+	}
+	if r.Intn(14) == 0 {
+		o.devStdin = true
+		o.stdinKind, o.pieces = "", 0
 	}
 	if r.Intn(12) == 0 {
 		o.outDev = []string{"/dev/stdout", "/dev/fd/1", "/proc/self/fd/1"}[r.Intn(3)]
